@@ -222,7 +222,7 @@ func RunC12(tier string) int {
 			}
 			margs := make([]BuildArg, len(must))
 			pool.Map("build", len(must), func(i int) any {
-				margs[i] = BuildArg{World: must[i].world(), Adds: must[i].adds}
+				margs[i] = BuildArg{World: must[i].world(), Adds: must[i].adds, PostUse: true, CrashScan: true}
 				return margs[i]
 			}, func(i int, r core.Result) {
 				rep.Evaluations++
@@ -243,6 +243,18 @@ func RunC12(tier string) int {
 				rep.Nontrivial("must-fail:" + why[i])
 				if !told {
 					rep.Violation("sourcebundle.Builder/analysis-failure-not-reported", desc+" :: dependency analysis cannot succeed ("+why[i]+") but no Add call and not Close reported an error", "build", margs[i])
+				}
+				// ... and the builder is poisoned from the failing Add on: later Adds refuse, no bundle comes out
+				failed := -1
+				for k, a := range out.Adds {
+					if a.HasErrors && failed < 0 {
+						failed = k
+					} else if failed >= 0 && a.Panic == "" {
+						rep.Violation("sourcebundle.Builder/builder-usable-after-failure", fmt.Sprintf("%s :: Add #%d after the failed Add #%d did not refuse (diags %v)", desc, k, failed, a.Diags), "build", margs[i])
+					}
+				}
+				if failed >= 0 && out.Bundle != nil {
+					rep.Violation("sourcebundle.Builder/bundle-from-failed-build", desc+" :: Close returned a bundle after dependency analysis had failed ("+why[i]+")", "build", margs[i])
 				}
 			})
 			parts = append(parts, map[string]any{"part": "builder-analysis-must-fail", "runs": len(must)})
